@@ -251,9 +251,72 @@ def _build(ch):
             "bodies": bodies, "security": security, "key": key}
 
 
+SEQ_ACTIONS = {
+    # action -> (operationId, {python kwarg: JSON value})
+    "A(all=v1)": ("opA", {"q": "q1", "h": "h1", "c": "c1"}),
+    "A(all=v2)": ("opA", {"q": "q2", "h": "h2", "c": "c2"}),
+    "A(unset)": ("opA", {}),
+    "A(c only)": ("opA", {"c": "c3"}),
+    "B(v1)": ("opB", {"c2": "k1", "body": {"a": "x"}}),
+    "B(v2)": ("opB", {"c2": "k2", "x_h": "hb", "body": {"a": "y", "n": 2}}),
+    "C()": ("opC", {}),
+}
+
+
+def _sequence_doc():
+    ok = {"200": {"description": "ok"}}
+    s = {"type": "string"}
+    paths = {
+        "/a": {"get": {"operationId": "opA", "responses": ok, "parameters": [
+            {"name": "q", "in": "query", "schema": s}, {"name": "h", "in": "header", "schema": s}, {"name": "c", "in": "cookie", "schema": s}]}},
+        "/b": {"post": {"operationId": "opB", "responses": ok, "parameters": [
+            {"name": "c2", "in": "cookie", "required": True, "schema": s}, {"name": "x-h", "in": "header", "schema": s}],
+            "requestBody": {"required": True, "content": {"application/json": {"schema": copy.deepcopy(OBJ_SCHEMA)}}}}},
+        "/c": {"get": {"operationId": "opC", "responses": ok}}}
+    return gen.base_doc(None, paths=paths)
+
+
+def _sequence_cases(tier):
+    """Operation sequences through ONE client object: a call must send what the same call sends on a fresh client."""
+    depth = 3 if tier == "quick" else 4
+    for first in SEQ_ACTIONS:
+        for asynchronous in (False, True):
+            yield {"labels": ["sequence", f"first={first}", "asyncio" if asynchronous else "sync", f"depth={depth}"],
+                   "payload": {"mode": "sequence", "doc": _sequence_doc(), "first": first, "asynchronous": asynchronous, "depth": depth}}
+
+
+CP_VARIANTS = [("page-size", "query"), ("page_size", "query"), ("page-size", "header"), ("page_size", "cookie"), ("PageSize", "query"), ("pageSize", "header")]
+
+
+def _component_param_cases(tier):
+    """Reusable parameters whose names are equal after normalisation: each reference resolves to ITS component."""
+    for (n1, l1), (n2, l2) in itertools.permutations(CP_VARIANTS, 2):
+        for k2 in ("str", "int"):
+            ok = {"200": {"description": "ok"}}
+            comps_p = {"First": {"name": n1, "in": l1, "required": False, "schema": {"type": "string"}},
+                       "Second": {"name": n2, "in": l2, "required": True, "schema": K.schema(k2, {})}}
+            r1, r2 = {"$ref": "#/components/parameters/First"}, {"$ref": "#/components/parameters/Second"}
+            paths = {"/one": {"get": {"operationId": "opOne", "parameters": [r1], "responses": ok}},
+                     "/two": {"get": {"operationId": "opTwo", "parameters": [r2], "responses": ok}}}
+            specs = {"opOne": [{"name": n1, "in": l1, "kind": "str", "required": False, "samples": ["sv1", "s-v.2"]}],
+                     "opTwo": [{"name": n2, "in": l2, "kind": k2, "required": True, "samples": p_samples(k2)}]}
+            if (n1, l1) != (n2, l2):
+                paths["/both"] = {"get": {"operationId": "opBoth", "parameters": [r1, r2], "responses": ok}}
+                specs["opBoth"] = specs["opOne"] + specs["opTwo"]
+            doc = gen.base_doc(None, paths=paths)
+            doc.setdefault("components", {})["parameters"] = comps_p
+            for op, spec in specs.items():
+                path = {"opOne": "/one", "opTwo": "/two", "opBoth": "/both"}[op]
+                yield {"labels": ["component-params", f"first={n1}@{l1}", f"second={n2}@{l2}", f"kind2={k2}", f"op={op}"],
+                       "payload": {"doc": doc, "options": {}, "method": "get", "path": path, "params": spec, "op": op,
+                                   "key": f"component-params/{l1}+{l2}/{op}"}}
+
+
 def cases(tier):
     yield from _matrix_cases()
     yield from _body_cases()
+    yield from _sequence_cases(tier)
+    yield from _component_param_cases(tier)
     bound = 2 if tier == "quick" else 3
     n = 0
     for labels, payload, _d in explore(_build, bound=bound, limit=4000 if tier == "quick" else 60000):
@@ -475,13 +538,74 @@ def _arg_vectors(p):
     return vecs
 
 
+def _norm_op(n):
+    return n.replace("_", "").lower()
+
+
+def _run_sequence(p):
+    res = gen.generate(p["doc"])
+    if res.crash or res.rejected or len(res.endpoints) != 3:
+        return {"outcome": "sequence-doc-not-generated", "nontrivial": False}
+    viol, steps = [], 0
+    with Sandbox(res.pkg_tree()) as sb:
+        mods = {_norm_op(ep["name"]): wire.endpoint_module(sb, ep) for ep in res.endpoints}
+        fname = "asyncio_detailed" if p["asynchronous"] else "sync_detailed"
+        cap = wire.Capture()
+        factory = lambda: wire.make_client(sb, cap)  # noqa: E731
+
+        def step(action):
+            op, args = SEQ_ACTIONS[action]
+            mod = mods[_norm_op(op)]
+            fn = getattr(mod, fname)
+            hints = pyval.hints(fn)
+            return fn, {k: pyval.pythonize(hints.get(k, typing.Any), copy.deepcopy(v)) for k, v in args.items()}
+
+        def summary(r):
+            if not r["ok"]:
+                return ["raises", type(r["exc"]).__name__]
+            return ["sent", [wire.req_summary(q) | {"cookies": sorted(q["cookies"].items())} for q in r["requests"]]]
+
+        alone = {}
+        for a in SEQ_ACTIONS:
+            alone[a] = summary(wire.call_seq([step(a)], p["asynchronous"], factory, cap)[0])
+        for rest in itertools.product(SEQ_ACTIONS, repeat=p["depth"] - 1):
+            seq = (p["first"],) + rest
+            outs = wire.call_seq([step(a) for a in seq], p["asynchronous"], factory, cap)
+            steps += len(seq)
+            for i, (a, r) in enumerate(zip(seq, outs)):
+                got = summary(r)
+                if got != alone[a]:
+                    earlier = sorted({SEQ_ACTIONS[x][0] for x in seq[:i]})
+                    viol.append({"oracle": "call-depends-on-history", "site": "asyncio" if p["asynchronous"] else "sync",
+                                 "key": f"sequence/{SEQ_ACTIONS[a][0]}-after-{'+'.join(earlier) or 'nothing'}",
+                                 "detail": f"call #{i + 1} of {list(seq)} on one client: {json.dumps(got)[:300]} but on a fresh client {json.dumps(alone[a])[:300]}"})
+                    break
+    seen, uniq = set(), []
+    for v in viol:
+        k = (v["oracle"], v["site"], v["key"])
+        if k not in seen:
+            seen.add(k)
+            uniq.append(v)
+    return {"violations": uniq, "outcome": "ok" if not uniq else "viol:call-depends-on-history", "nontrivial": steps > 0, "steps": steps}
+
+
 def run_case(p):
+    if p.get("mode") == "sequence":
+        return _run_sequence(p)
     res = gen.generate(p["doc"], **p.get("options", {}))
     if res.crash:
         return {"skipped_crash": True, "outcome": f"crash:{res.crash['type']}", "nontrivial": False}
     if res.rejected or not res.endpoints:
         return {"outcome": "no-endpoint:" + (res.diags[0].short()[:70] if res.diags else "?"), "nontrivial": False}
     ep = res.endpoints[0]
+    if p.get("op"):
+        ep = next((e for e in res.endpoints if _norm_op(e["name"]) == _norm_op(p["op"])), None)
+        if ep is None:
+            text = res.diag_text()
+            if p["op"] in text or p["path"] in text:
+                return {"outcome": "operation-diagnosed", "nontrivial": False}
+            return {"violations": [{"oracle": "operation-missing", "site": "-", "key": p["key"], "detail": f"operation {p['op']} neither generated nor diagnosed"}],
+                    "outcome": "viol:operation-missing", "nontrivial": True}
     viol, steps = [], 1
     key = p["key"]
     with Sandbox(res.pkg_tree()) as sb:
